@@ -33,6 +33,7 @@ type methodCase struct {
 	ResKind string  `json:"reskind"`
 	Res     *cval   `json:"res"`
 	ResImg  []chunk `json:"resimg"`
+	ResAll  []string `json:"resall"`
 }
 
 func init() {
@@ -176,6 +177,17 @@ func init() {
 				return nil
 			}
 			ret := res.out[0]
+			// the declared result type may answer with any of its constructors
+			elem := mt.Out(0)
+			if c.ResKind == "vec" && elem.Kind() == reflect.Slice {
+				elem = elem.Elem()
+			}
+			for _, id := range c.ResAll {
+				if rt, ok := registryTypes[id]; ok && !rt.AssignableTo(elem) {
+					rep.Disagree("C13:result-type-narrowed:"+c.Name, fmt.Sprintf("%s returns %v, which cannot hold constructor %s (%v) of the declared result type", mname, mt.Out(0), id, rt), info)
+					break
+				}
+			}
 			exp := reflect.New(mt.Out(0)).Elem()
 			var berr error
 			if c.ResKind == "obj" {
